@@ -242,7 +242,11 @@ fn run_guarded(job: Job) -> String {
 // child-process probes (cases that abort the process)
 // ------------------------------------------------------------------------------------------
 /// (probe id, mode, script; `@SELF` = path of the script file itself)
-const PROBES: [(&str, &str, &str); 15] = [
+const PROBES: [(&str, &str, &str); 18] = [
+    // controls: collections that contain their own handle are released recursively without looping
+    ("control-release-self-cycle", "text", "a = array a b\narray_push ${a} ${a}\nx = release -r ${a}\ny = is_array ${a}\nassert_false ${y}\n"),
+    ("control-release-two-cycle", "text", "m = map\na = array\narray_push ${a} ${m}\nmap_put ${m} k ${a}\nx = release -r ${a}\n"),
+    ("control-release-set-cycle", "text", "s = set_new x\na = array ${s}\nset_put ${s} ${a}\nx = release --recursive ${s}\n"),
     ("include-cycle", "file", "!include_files @SELF\n"),
     ("json-encode-cyclic", "text", "a = array\narray_push ${a} ${a}\nx = json_encode --collection ${a}\n"),
     ("range-huge", "text", "x = range 0 100000000000000\n"),
@@ -313,7 +317,11 @@ fn run_probe(name: &str) -> String {
 // ------------------------------------------------------------------------------------------
 // generation
 // ------------------------------------------------------------------------------------------
-const NUMS: [&str; 26] = [
+const NUMS: [&str; 33] = [
+    // (128-bit limits and beyond: commands that parse into i128 / u128 / f64)
+    "170141183460469231731687303715884105727", "-170141183460469231731687303715884105728",
+    "340282366920938463463374607431768211455", "340282366920938463463374607431768211456", "1e38", "-1e38",
+    "99999999999999999999999999999999999999999",
     "0", "1", "2", "3", "5", "7", "-1", "-2", "-0", "+1", "10", "255", "256", "1.5", "-1.5", "1e3", "1e400", "0x10",
     "9223372036854775807", "-9223372036854775808", "9223372036854775808", "18446744073709551615",
     "18446744073709551616", " 3", "3 ", "nan",
@@ -517,7 +525,7 @@ impl<'a> Gen<'a> {
                 self.rng.pick_s(&FLAGS).to_string()
             }
             K::Var => {
-                let names = ["v0", "v1", "h0", "h1", "o0", "o1", "nope", "gone", "", "scope::x", "a b", "é", "o0.a", "h0[0]"];
+                let names = ["v0", "v1", "h0", "h1", "o0", "o1", "nope", "gone", "", "scope::x", "a b", "é", "o0.a", "h0[0]", "o0b", "o1_x", "o", "h"];
                 let t = self.rng.pick_s(&names).to_string();
                 self.emit(t)
             }
@@ -899,6 +907,12 @@ impl Prop for C07Prop {
             "x = substring aé -1",
             "x = random_range 1 1",
             "x = random_range 5 1",
+            "x = random_range -170141183460469231731687303715884105728 170141183460469231731687303715884105727",
+            "x = random_range -1e38 1e38",
+            // json_encode (variable mode) with sibling variables that share the object's name as a prefix
+            "a = set [OBJECT]\na.k = set 1\nab = set 2\nx = json_encode a",
+            "config_path = set ./config.json\nconfig = json_parse \"{\\\"k\\\": {\\\"n\\\": [1, 2]}}\"\nconfig2 = set x\nx = json_encode config",
+            "o = json_parse [1,2]\no.lengthy = set 1\nox = set 1\nx = json_encode o",
         ];
         for s in regress {
             out.push(lib_case(s, &[], vec!["regression-fixed-panics"]));
